@@ -19,6 +19,7 @@ from . import aggcommon as AC
 
 PROP = "C16"
 NAMES = {1: "subject_one", 2: "subject_two"}
+LATER = "later_subject"
 META = {
     "bounds": {"quick": "2 concurrent evaluate() calls, and 2 evaluate() calls + 1 make_statistic(), on one shared aggregator; subject of each call symbolic in {a, b} (colliding names included); every interleaving of their "
                         "lock / file / evaluation operations (<= 40 steps); row appends split in two micro-steps",
@@ -31,11 +32,15 @@ META = {
 }
 
 
+OBLIGATIONS = ["exactly_one_row_per_distinct_subject", "no_call_blocks_forever", "locks_free_once_all_calls_returned", "only_complete_rows_are_read"]
+
+
 def cases(tier):
-    if tier == "quick":
-        return [{"name": "two_evaluate", "threads": ["evaluate", "evaluate"]}, {"name": "two_evaluate_one_statistic", "threads": ["evaluate", "evaluate", "make_statistic"]}]
-    return [{"name": "two_evaluate", "threads": ["evaluate", "evaluate"]}, {"name": "two_evaluate_one_statistic", "threads": ["evaluate", "evaluate", "make_statistic"]},
-            {"name": "three_evaluate", "threads": ["evaluate", "evaluate", "evaluate"]}]
+    cfgs = [("two_evaluate", ["evaluate", "evaluate"]), ("two_evaluate_one_statistic", ["evaluate", "evaluate", "make_statistic"])]
+    if tier != "quick":
+        cfgs.append(("three_evaluate", ["evaluate", "evaluate", "evaluate"]))
+    # one solver query per worker process: (thread configuration, obligation)
+    return [{"name": "%s__%s" % (n, ob), "threads": th, "only": ob} for n, th in cfgs for ob in OBLIGATIONS]
 
 
 def run_case(case):
@@ -62,7 +67,7 @@ def run_case(case):
                 nontrivial.append("%s:%s" % (k, " ".join("/".join(map(str, e)) for e in t)))
         bmc = protocol.BMC(programs, case["threads"], names=(1, 2))
         stats["decisions"] = bmc.T
-        for name, verdict, cex in bmc.obligations():
+        for name, verdict, cex in bmc.obligations(only=case.get("only")):
             st = obligations.setdefault(name, [0, 0])
             st[0] += 1
             if verdict == "holds":
@@ -249,8 +254,28 @@ def _replay_schedule(case, free_run_s=2.0):
         for th in ths:
             th.join(timeout=max(0.1, deadline - time.time()))
         alive = [i for i, th in enumerate(ths) if th.is_alive()]
+        later_blocked = False
+        if not alive and not state["diverged"]:
+            # one more call after all scheduled calls have returned (free running): it must return too, and leave its row
+            with cond:
+                state["free"] = True
+                cond.notify_all()
+
+            def later():
+                local.tid = -1
+                try:
+                    threading.current_thread().subject = LATER
+                    agg.evaluate(None, None, LATER)
+                except BaseException as e:      # noqa
+                    errors["later"] = "%s: %s" % (type(e).__name__, str(e)[:200])
+            th = threading.Thread(target=later, daemon=True)
+            th.subject = None
+            th.start()
+            th.join(timeout=10)
+            later_blocked = th.is_alive()
         rows = AC.read_table(out)
-        return {"rows": rows, "errors": errors, "alive": alive, "diverged": state["diverged"], "stats": stats_seen, "names": names, "position": state["pos"], "steps": len(steps)}
+        return {"rows": rows, "errors": errors, "alive": alive, "diverged": state["diverged"], "stats": stats_seen, "names": names, "position": state["pos"], "steps": len(steps),
+                "later_blocked": later_blocked}
     finally:
         with cond:
             state["free"] = True
@@ -262,13 +287,16 @@ def real_schedule(case, mode, expect):
     obs = _replay_schedule(case)
     names = obs["names"]
     progs = case["thread_prog"]
-    submitted = sorted({names[t] for t in range(len(progs)) if progs[t] == "evaluate"})
+    submitted = sorted({names[t] for t in range(len(progs)) if progs[t] == "evaluate"} | {LATER})
     want_value = {s: str(float(len(s))) for s in submitted}
     bad = None
     if obs["diverged"]:
         return {"error": "schedule replay diverged: %s" % obs["diverged"], "observed": {k: obs[k] for k in ("position", "steps")}}
     if obs["alive"]:
         bad = "no_call_blocks_forever: calls of threads %s did not return within 30 s" % obs["alive"]
+    elif obs.get("later_blocked"):
+        bad = "no_call_blocks_forever: after the scheduled calls (%s) had all returned, a later evaluate call did not return within 10 s (a lock is left held)" % ", ".join(
+            "%s(%s)" % (progs[t], names[t] if progs[t] == "evaluate" else "") for t in range(len(progs)))
     elif obs["errors"]:
         bad = "only_complete_rows_are_read: %s" % obs["errors"]
     else:
